@@ -25,4 +25,45 @@ RollupAfterCompactOK ==
                v |-> IF Exact(Types, k[2]) THEN RollupAgg(Types, <<direct>>, k, 5, 2)
                      ELSE (CHOOSE c \in RollupSources(<<direct>>, k, 5, 2) : TRUE).v] : k \in RollupKeys(<<direct>>, 5, 2)}} :
      RollupOK(S3, Types, 5, 2, out)
+\* several sources into one target family (ratio 2): the target accumulates one output per rollup job -- the rollup of
+\* source family A (files 1, 2; base ba) and, by a later job or pass, of source family B (file 3; base bb, the same
+\* family when ba = bb: a later file of it); a reader merges what it finds.  That must be the reference rollup of all
+\* three source files at their own bases, each once -- also when A's two files went in by two separate jobs.
+MultiSourceOK ==
+  \A bp \in {<<5, 5>>, <<5, 6>>, <<6, 5>>} :
+    LET ba == bp[1]  bb == bp[2]
+        srcs == <<[base |-> ba, blocks |-> <<bs[1], bs[2]>>], [base |-> bb, blocks |-> <<bs[3]>>]>>
+        a12 == RefRollup(<<bs[1], bs[2]>>, Types, ba, 2)
+        a1 == RefRollup(<<bs[1]>>, Types, ba, 2)
+        a2 == RefRollup(<<bs[2]>>, Types, ba, 2)
+        b3 == RefRollup(<<bs[3]>>, Types, bb, 2)
+    IN /\ MultiRollupOK(srcs, Types, 2, RefMerge(<<a12, b3>>, Types))
+       /\ MultiRollupOK(srcs, Types, 2, RefMerge(<<a1, b3, a2>>, Types))
+\* ---- the target family's bookkeeping (kv/version/rollup.go referenceFiles, kv/family_rollup.go doRollupWork): a source
+\* file that is offered to the target family is rolled in unless its reference key is already recorded there (the
+\* reference is committed together with the output).  Three source files: two of family 1 of source store "A" (files
+\* 1, 2), one of family 1 of source store "B" (file 1): family ids and file numbers are allocated per source store, so
+\* they repeat.  Every file is offered again later (rollup triggered again / repeated after a kill between the target's
+\* commit and the source's commit).
+SrcFiles(ba, bb) ==
+  <<[store |-> "A", fam |-> 1, file |-> 1, base |-> ba, block |-> bs[1]],
+    [store |-> "A", fam |-> 1, file |-> 2, base |-> ba, block |-> bs[2]],
+    [store |-> "B", fam |-> 1, file |-> 1, base |-> bb, block |-> bs[3]]>>
+Offered(fs) == <<fs[1], fs[2], fs[3], fs[1], fs[3], fs[2]>>
+FullKey(x) == <<x.store, x.fam, x.file>>
+ShortKey(x) == <<x.fam, x.file>>      \* deviation: the reference does not name the source store
+NoKey(x) == <<x.store, x.fam, x.file, x.pos>>   \* deviation: nothing is remembered (every offer is new)
+TargetAfter(offers, K(_)) ==
+  LET o == [i \in 1..Len(offers) |-> [store |-> offers[i].store, fam |-> offers[i].fam, file |-> offers[i].file,
+                                      base |-> offers[i].base, block |-> offers[i].block, pos |-> i]]
+      acc == SelectSeq(o, LAMBDA x : \A j \in 1..(x.pos - 1) : K(o[j]) # K(x))
+  IN RefMerge([i \in 1..Len(acc) |-> RefRollup(<<acc[i].block>>, Types, acc[i].base, 2)], Types)
+Bookkeeping(K(_)) ==
+  \A bp \in {<<5, 5>>, <<5, 6>>, <<6, 5>>} :
+    LET fs == SrcFiles(bp[1], bp[2])
+        srcs == <<[base |-> bp[1], blocks |-> <<bs[1], bs[2]>>], [base |-> bp[2], blocks |-> <<bs[3]>>]>>
+    IN MultiRollupOK(srcs, Types, 2, TargetAfter(Offered(fs), K))
+BookkeepingOK == Bookkeeping(FullKey)
+BookkeepingShortKey == Bookkeeping(ShortKey)   \* must be violated (a file of store "B" is taken for one of store "A")
+BookkeepingNoKey == Bookkeeping(NoKey)         \* must be violated (a sum counted twice)
 =============================================================================
